@@ -260,13 +260,13 @@ def subchecks():
             name="universe",
             run_case=run_partA,
             strategy=lambda tier: universe_case(tier),
-            examples={"quick": 6000, "thorough": 150000},
+            examples={"quick": 6000, "thorough": 400000},
         ),
         SubCheck(
             name="forest-searches",
             run_case=run_partB,
             strategy=lambda tier: gen.scenario(tier, dbs=["Forest", "Forest", "ForestNoRev"]),
-            examples={"quick": 1500, "thorough": 25000},
+            examples={"quick": 1500, "thorough": 80000},
             case_timeout=20.0,
         ),
         SubCheck(
